@@ -615,7 +615,7 @@ func (c *Ctx) invoke(fr *Frame, st *State, site ssa.Instruction, recv *Val, m *t
 		cands = nil
 	}
 	// only logg's own interfaces and io.Writer are dispatched; fmt.Stringer, error, ... carry user values
-	if tn := typeName(it); !(tn == rootPkg+".LogWriter" || tn == rootPkg+".LevelSettable" || tn == "io.Writer") {
+	if tn := typeName(it); !(tn == rootPkg+".LogWriter" || tn == rootPkg+".LevelSettable" || tn == "io.Writer" || tn == rootPkg+".ObjectSerializer") {
 		cands = nil
 	}
 	if len(cands) == 0 || c.dry > 0 {
@@ -633,6 +633,10 @@ func (c *Ctx) invoke(fr *Frame, st *State, site ssa.Instruction, recv *Val, m *t
 		bst := st.clone()
 		c.curReach = and(base, cond)
 		self := c.unbox(bst, app("ival", recv.Term), cd.recvT)
+		if c.prog.NonNilDyn[typeName(cd.recvT)] && self.Term != "" {
+			c.assumed["typed nil "+typeName(cd.recvT)+" never occurs inside an interface value (its own methods would panic)"] = true
+			c.assume(not(eq(self.Term, "0")))
+		}
 		r, ex := c.contractCall(fr, bst, site, cd.fn, cd.con, append([]*Val{self}, args...), rt)
 		exits = append(exits, ex...)
 		if c.curReach != "false" {
